@@ -5,6 +5,7 @@ finalisers run is decided by the op sequence (dropping the last reference), not 
 collector.  Faults: a wrongly typed argument / list element (the wrapper leaves through its
 fail path) and a failing CPython allocation (_testcapi.set_nomemory).
 """
+import array
 import ctypes
 import gc
 import os
@@ -20,8 +21,13 @@ h = [None] * NH
 bx = [None] * NH
 
 
+QUIET = [False]
+hook.sim_wrapper_live.restype = ctypes.c_long
+
+
 def out(s):
-    os.write(1, (s + "\n").encode("latin-1", "replace"))
+    if not QUIET[0]:
+        os.write(1, (s + "\n").encode("latin-1", "replace"))
 
 
 def res(k, *vals):
@@ -48,11 +54,58 @@ class Unhashable(object):
         raise ValueError("not convertible")
 
 
+_memo = {}
+
+
+def prepared(key, make):
+    """Argument objects are built once per (op, arguments) and reused: constructing a list from a
+    range grows CPython's own heap a little on every call, which has nothing to do with the
+    wrapper under test (calibrated with a shroud-free loop)."""
+    if key not in _memo:
+        _memo[key] = make()
+    TOUCHED.append(_memo[key])
+    return _memo[key]
+
+
+TOUCHED = []
+
+
+def refsum():
+    """Sum of the reference counts of the prepared argument objects of this op and their items."""
+    tot = 0
+    for o in TOUCHED:
+        tot += sys.getrefcount(o)
+        if isinstance(o, list):
+            for x in o:
+                if not isinstance(x, int) or x > 256:
+                    tot += sys.getrefcount(x)
+    return tot
+
+
 def bad_value(kind):
     return {0: None, 1: "text", 2: 3.25, 3: Unhashable(), 4: [1], 5: b"bytes"}[kind % 6]
 
 
 def do_op(k, name, a, b, text):
+    if name.startswith("leak_"):
+        # the same call six times in a row: the number of wrapper-phase heap blocks (CPython's own
+        # allocations included, PYTHONMALLOC=malloc) must stop growing once caches are warm
+        # (raw longs in a preallocated array: keeping the int objects would itself grow the heap)
+        counts = array.array("l", [0] * 6)
+        refs = array.array("l", [0] * 6)
+        inner = name[5:]
+        QUIET[0] = True
+        try:
+            for i in range(6):
+                del TOUCHED[:]
+                do_op(k, inner, a, b, text)
+                counts[i] = hook.sim_wrapper_live()
+                refs[i] = refsum()
+        finally:
+            QUIET[0] = False
+            del TOUCHED[:]
+        res(k, "GROW", *(list(counts) + ["REFS"] + list(refs)))
+        return
     if name == "item_default":
         h[a] = simlib.Item()
         res(k)
@@ -108,19 +161,19 @@ def do_op(k, name, a, b, text):
     elif name == "str_lib":
         res(k, simlib.strLib())
     elif name == "str_in":
-        res(k, simlib.strIn(text))
+        res(k, simlib.strIn(prepared(("t", text), lambda: text)))
     elif name == "str_out":
         res(k, simlib.strOut(b))
     elif name == "str_inout":
-        res(k, simlib.strInout(text))
+        res(k, simlib.strInout(prepared(("t", text), lambda: text)))
     elif name == "char_out":
-        res(k, simlib.charOut(text))
+        res(k, simlib.charOut(prepared(("t", text), lambda: text)))
     elif name == "char_ret":
         res(k, simlib.charRet(a))
     elif name == "char_inout":
         res(k, simlib.charInout(text))
     elif name == "vec_sum":
-        res(k, simlib.vecSum(list(range(1, a + 1))))
+        res(k, simlib.vecSum(prepared(("vs", a), lambda: [i for i in range(1, a + 1)])))
     elif name == "vec_iota":
         arr(k, simlib.vecIota())
     elif name == "vec_alloc":
@@ -136,7 +189,7 @@ def do_op(k, name, a, b, text):
     elif name == "arr_pat":
         arr(k, simlib.arrNewPat(a))
     elif name == "arr_sum":
-        res(k, simlib.arrSum([3 * i for i in range(1, a + 1)]))
+        res(k, simlib.arrSum(prepared(("as", a), lambda: [3 * i for i in range(1, a + 1)])))
     elif name == "char_grow":
         res(k, simlib.charGrow(text))
     elif name == "ref_item":
@@ -146,11 +199,14 @@ def do_op(k, name, a, b, text):
         lst = simlib.vecRetD(a)
         res(k, len(lst), int(sum(lst) * 4))
     elif name == "bad_arr_sum":
-        lst = [3 * i for i in range(1, a + 1)]
-        if lst:
-            lst[b % len(lst)] = bad_value(b)
-        else:
-            lst = bad_value(b)
+        def mk2():
+            lst = [3 * i for i in range(1, a + 1)]
+            if lst:
+                lst[b % len(lst)] = bad_value(b)
+            else:
+                lst = bad_value(b)
+            return lst
+        lst = prepared(("bas", a, b), mk2)
         try:
             simlib.arrSum(lst)
             res(k, "NOERROR")
@@ -158,11 +214,14 @@ def do_op(k, name, a, b, text):
             res(k, "EXC", type(e).__name__)
     # ---- faults: the wrapper must leave through its error path without leaking or crashing
     elif name == "bad_vec_sum":
-        lst = list(range(1, a + 1))
-        if lst:
-            lst[b % len(lst)] = bad_value(b)
-        else:
-            lst = bad_value(b)
+        def mk():
+            lst = [i for i in range(1, a + 1)]
+            if lst:
+                lst[b % len(lst)] = bad_value(b)
+            else:
+                lst = bad_value(b)
+            return lst
+        lst = prepared(("bvs", a, b), mk)
         try:
             simlib.vecSum(lst)
             res(k, "NOERROR")
@@ -174,7 +233,7 @@ def do_op(k, name, a, b, text):
                  lambda v: simlib.vecAlloc(v), lambda v: simlib.arrNew(v), lambda v: simlib.strInout(v),
                  lambda v: simlib.charOut(v), lambda v: simlib.vecRet(v), lambda v: simlib.strOwned(v)]
         try:
-            calls[a % len(calls)](bad_value(b))
+            calls[a % len(calls)](prepared(("bv", b), lambda: bad_value(b)))
             res(k, "NOERROR")
         except BaseException as e:
             res(k, "EXC", type(e).__name__)
